@@ -16,7 +16,9 @@ EXHAUSTIVE = True
 RULE = (
     'all well-nested programs of with dict_insertion_ordered(True|False, namespace in {global sentinel, a, b}) blocks exiting normally or by '
     'exception, up to the block / depth bound of the tier (quick: <= 3 blocks exhaustively + sampled 4-6 blocks; thorough: <= 4 blocks depth <= 4 '
-    'exhaustively + sampled up to 8), executed with real with-blocks; at every enter / exit event the exact mode set is read for namespaces '
+    'exhaustively + sampled up to 8), executed with real with-blocks - and, for all programs of <= 2 (3) blocks plus the sampled ones, with the block '
+    'entered as a decorator (fresh / ONE shared decorator object per label, re-entered while active), inside a generator that is closed, left by return, '
+    'or through an ExitStack; at every enter / exit event the exact mode set is read for namespaces '
     '{global, a, b, zz} and dict-bearing trees are flattened in every namespace through every traversal and treespec constructor and compared '
     'with the reference under effective(ns) = ns in S or global in S. distinct = distinct programs; non-trivial = >= 2 blocks'
 )
@@ -107,13 +109,19 @@ def dict_trees(rng):
     return fixed + [t]
 
 
+STYLES = ('with', 'decorator', 'decorator-shared', 'generator-close', 'return-inside', 'exitstack')
+
+
 class Runner:
-    def __init__(self, sink, trees, ident):
+    def __init__(self, sink, trees, ident, style='with', light=False):
         self.sink = sink
         self.trees = trees
         self.ident = ident
         self.S = set()  # model
         self.events = 0
+        self.style = style  # how every block of the program is entered and left
+        self.decos = {}  # decorator-shared: ONE dict_insertion_ordered(...) object per (mode, namespace), re-entered at every nesting level
+        self.light = light
 
     def state(self):
         return {ns for ns in NSS if _C.is_dict_insertion_ordered(ns, inherit_global_namespace=False)}
@@ -172,25 +180,68 @@ class Runner:
                 sink.check(list(h2.flatten_func(mk())[0]) == ch, f'python/get()[{cls.__name__}]', 'the dict view of the registry reflects the current mode', ident)
         sink.count('observation-events')
 
-    def run_block(self, b):
+    def run_block(self, b):  # noqa: C901
+        import contextlib
+
         before = set(self.S)
+        style = self.style
+
+        def body():
+            (self.S.add if b.mode else self.S.discard)(b.ns)
+            self.observe(f'enter {b.short()}')
+            for inner in b.body:
+                self.run_block(inner)
+            if b.exit == 'raise':
+                raise Marker
+
         try:
-            with optree.dict_insertion_ordered(b.mode, namespace=ns_arg(b.ns)):
-                (self.S.add if b.mode else self.S.discard)(b.ns)
-                self.observe(f'enter {b.short()}')
-                for inner in b.body:
-                    self.run_block(inner)
-                if b.exit == 'raise':
-                    raise Marker
+            if style == 'with':
+                with optree.dict_insertion_ordered(b.mode, namespace=ns_arg(b.ns)):
+                    body()
+            elif style == 'decorator':
+                # the context manager used as a decorator (contextlib.ContextDecorator protocol), a fresh one per block
+                optree.dict_insertion_ordered(b.mode, namespace=ns_arg(b.ns))(body)()
+            elif style == 'decorator-shared':
+                # one decorator object per (mode, namespace) for the whole program: nested blocks with the same label re-enter it while it is
+                # active (a decorated function that recurses or is re-entered through a callback), later blocks reuse it
+                deco = self.decos.get((b.mode, b.ns))
+                if deco is None:
+                    deco = self.decos[(b.mode, b.ns)] = optree.dict_insertion_ordered(b.mode, namespace=ns_arg(b.ns))
+                deco(body)()
+            elif style == 'generator-close':
+                # the block lives in a generator that is suspended inside it and then closed (GeneratorExit is thrown at the yield)
+                def g():
+                    with optree.dict_insertion_ordered(b.mode, namespace=ns_arg(b.ns)):
+                        body()
+                        yield 1
+                        raise AssertionError('resumed')
+
+                it = g()
+                next(it)
+                it.close()
+            elif style == 'return-inside':
+                def f():
+                    with optree.dict_insertion_ordered(b.mode, namespace=ns_arg(b.ns)):
+                        body()
+                        return 1
+                    return 0  # pragma: no cover
+
+                f()
+            elif style == 'exitstack':
+                with contextlib.ExitStack() as st:
+                    st.enter_context(optree.dict_insertion_ordered(b.mode, namespace=ns_arg(b.ns)))
+                    body()
+            else:
+                raise AssertionError(style)
         except Marker:
             pass
         self.S = before  # specification: on exit every namespace has the mode it had at enter
         self.observe(f'exit {b.short()}')
 
 
-def run_program(sink, prog, trees, tag):
-    ident = dict(program=''.join(b.short() for b in prog), kind=tag)
-    r = Runner(sink, trees, ident)
+def run_program(sink, prog, trees, tag, style='with'):
+    ident = dict(program=''.join(b.short() for b in prog), kind=tag, entered_by=style)
+    r = Runner(sink, trees, ident, style)
     initial = r.state()
     r.S = set(initial)
     try:
@@ -202,9 +253,11 @@ def run_program(sink, prog, trees, tag):
         for ns in NSS:
             _C.set_dict_insertion_ordered(False, ns)
     n = sum(1 + _cnt(b) for b in prog)
-    sink.case(ident['program'], n >= 2, ident if n >= 3 else None)
+    sink.case(ident['program'] + ('' if style == 'with' else '/' + style), n >= 2, ident if n >= 3 else None)
     sink.cell('blocks', n)
     sink.cell('kind', tag)
+    sink.cell('entered-by', style)
+    sink.count(f'style:{style}')
 
 
 def _cnt(b):
@@ -231,12 +284,20 @@ def run_shard(sink, tier, seed, shard):
     for j, prog in enumerate(programs(max_blocks, max_depth)):
         if j % n == i0:
             run_program(sink, prog, trees, 'exhaustive')
+    # every other way of entering / leaving a block: all programs of <= 2 blocks (thorough: <= 3) exhaustively per style, sampled ones by the case rng
+    for style in STYLES[1:]:
+        for j, prog in enumerate(programs(2 if tier == 'quick' else 3, 3)):
+            if j % n == i0:
+                run_program(sink, prog, trees, 'exhaustive', style)
     n_samp = harness.scale(400, 30000, tier)
     for k in range(i0, n_samp, n):
         r = gen.case_rng(seed, 'c13s', k)
-        run_program(sink, rand_program(r, 6 if tier == 'quick' else 8, 4), trees, 'sampled')
+        prog = rand_program(r, 6 if tier == 'quick' else 8, 4)
+        run_program(sink, prog, trees, 'sampled', r.choice(STYLES))
     sink.extra['bound'] = dict(max_blocks_exhaustive=max_blocks, max_depth=max_depth)
 
 
 def finalize(sink, tier, seed):
     sink.require('observation-events', 1000)
+    for st in STYLES:
+        sink.require(f'style:{st}', 20)
